@@ -6,6 +6,7 @@ import DebInspector.Thm.C08
 import DebInspector.Thm.C06
 import DebInspector.Thm.C13F
 import DebInspector.Thm.C17
+import DebInspector.Thm.C19
 
 namespace Props.C08W
 open Py Model.Email Props.C08
@@ -593,5 +594,450 @@ theorem phl_atoms (n : Nat) (ls : List Str) : ∀ (idx : Nat) (s : HSt), s.acc.d
             · exact Or.inl h
             · exact Or.inr (Or.inl h)
           · exact Or.inr (Or.inr (Or.inr hx))
+
+/-! ### a line that starts with a terminator is only terminators -/
+
+def CurInv (cur : Str) (cr : Bool) : Prop :=
+  cur = [] ∨ (cur = ['\r'] ∧ cr = true) ∨ (∃ c cs, cur.reverse = c :: cs ∧ isTerm c = false)
+
+def OnlyTermIfNl (l : Str) : Prop := startsWithNl l = true → ∀ c ∈ l, isTerm c = true
+
+theorem curInv_push (cur : Str) (cr : Bool) (c : Char) (hc : isTerm c = false) (h : CurInv cur cr) (hcr : cr = false) :
+    CurInv (c :: cur) false := by
+  right; right
+  rcases h with h | ⟨_, h⟩ | ⟨d, ds, hd, hdt⟩
+  · subst h; exact ⟨c, [], rfl, hc⟩
+  · rw [hcr] at h; cases h
+  · exact ⟨d, ds ++ [c], by simp [hd], hdt⟩
+
+theorem emit_ok (cur : Str) (cr : Bool) (h : CurInv cur cr) : OnlyTermIfNl cur.reverse := by
+  intro hs
+  rcases h with h | ⟨h, _⟩ | ⟨d, ds, hd, hdt⟩
+  · subst h; simp
+  · subst h; intro c hc; simp at hc; subst hc; decide
+  · rw [hd] at hs
+    simp only [startsWithNl, headP, Bool.or_eq_true, decide_eq_true_eq] at hs
+    simp only [isTerm, Bool.or_eq_false_iff, decide_eq_false_iff_not] at hdt
+    rcases hs with h | h
+    · exact absurd h hdt.1
+    · exact absurd h hdt.2
+
+theorem emit_nl_ok (cur : Str) (cr : Bool) (h : CurInv cur cr) : OnlyTermIfNl ('\n' :: cur).reverse := by
+  intro hs
+  rcases h with h | ⟨h, _⟩ | ⟨d, ds, hd, hdt⟩
+  · subst h; intro c hc; simp at hc; subst hc; decide
+  · subst h; intro c hc; simp at hc; rcases hc with rfl | rfl <;> decide
+  · rw [List.reverse_cons, hd] at hs
+    simp only [List.cons_append, startsWithNl, headP, Bool.or_eq_true, decide_eq_true_eq] at hs
+    simp only [isTerm, Bool.or_eq_false_iff, decide_eq_false_iff_not] at hdt
+    rcases hs with h | h
+    · exact absurd h hdt.1
+    · exact absurd h hdt.2
+
+theorem ske_nl (t cur : Str) (cr : Bool) (h : CurInv cur cr) (hcr : cr = true → ∃ cur', cur = '\r' :: cur') :
+    ∀ l ∈ splitKeepEndsAux t cur cr, OnlyTermIfNl l := by
+  induction t generalizing cur cr with
+  | nil =>
+    intro l hl
+    unfold splitKeepEndsAux at hl
+    by_cases he : cur.isEmpty = true
+    · simp [he] at hl
+    · simp only [he, Bool.false_eq_true, if_false, List.mem_singleton] at hl
+      subst hl; exact emit_ok cur cr h
+  | cons c rest ih =>
+    intro l hl
+    unfold splitKeepEndsAux at hl
+    have hnilinv : CurInv [] false := Or.inl rfl
+    by_cases hc : cr = true
+    · simp only [hc, if_true] at hl
+      by_cases h1 : c = '\n'
+      · subst h1
+        simp only [if_true, List.mem_cons] at hl
+        rcases hl with rfl | hl
+        · exact emit_nl_ok cur cr h
+        · exact ih [] false hnilinv (by simp) l hl
+      · simp only [h1, if_false] at hl
+        by_cases h2 : c = '\r'
+        · subst h2
+          simp only [if_true, List.mem_cons] at hl
+          rcases hl with rfl | hl
+          · exact emit_ok cur cr h
+          · exact ih ['\r'] true (Or.inr (Or.inl ⟨rfl, rfl⟩)) (fun _ => ⟨[], rfl⟩) l hl
+        · simp only [h2, if_false, List.mem_cons] at hl
+          rcases hl with rfl | hl
+          · exact emit_ok cur cr h
+          · have hct : isTerm c = false := by simp [isTerm, h1, h2]
+            exact ih [c] false (Or.inr (Or.inr ⟨c, [], rfl, hct⟩)) (by simp) l hl
+    · have hc' : cr = false := by simpa using hc
+      simp only [hc', Bool.false_eq_true, if_false] at hl
+      by_cases h1 : c = '\n'
+      · subst h1
+        simp only [if_true, List.mem_cons] at hl
+        rcases hl with rfl | hl
+        · exact emit_nl_ok cur cr h
+        · exact ih [] false hnilinv (by simp) l hl
+      · simp only [h1, if_false] at hl
+        by_cases h2 : c = '\r'
+        · subst h2
+          simp only [if_true] at hl
+          -- a carriage return after other characters, or at the start of a line
+          have hinv' : CurInv ('\r' :: cur) true := by
+            rcases h with h | ⟨_, h⟩ | ⟨d, ds, hd, hdt⟩
+            · subst h; exact Or.inr (Or.inl ⟨rfl, rfl⟩)
+            · rw [hc'] at h; cases h
+            · exact Or.inr (Or.inr ⟨d, ds ++ ['\r'], by simp [hd], hdt⟩)
+          exact ih ('\r' :: cur) true hinv' (fun _ => ⟨cur, rfl⟩) l hl
+        · simp only [h2, if_false] at hl
+          have hct : isTerm c = false := by simp [isTerm, h1, h2]
+          exact ih (c :: cur) false (curInv_push cur cr c hct h hc') (by simp) l hl
+
+theorem sep_line_atoms (t : Str) (l : Str) (hl : l ∈ splitKeepEnds t) (hs : startsWithNl l = true) : atoms l = [] := by
+  have := ske_nl t [] false (Or.inl rfl) (by simp) l hl hs
+  exact atoms_allsep l (fun c hc => term_sep (this c hc))
+
+theorem takeHeaderLines_split (ls : List Str) :
+    ls = (takeHeaderLines ls).1 ++ (takeHeaderLines ls).2 ∧ ∀ l ∈ (takeHeaderLines ls).1, isHeaderLine l = true := by
+  induction ls with
+  | nil => exact ⟨rfl, by simp [takeHeaderLines]⟩
+  | cons l rest ih =>
+    unfold takeHeaderLines
+    by_cases h : isHeaderLine l = true
+    · simp only [h, if_true]
+      refine ⟨by rw [List.cons_append, ← ih.1], ?_⟩
+      intro x hx
+      rcases List.mem_cons.mp hx with rfl | hx
+      · exact h
+      · exact ih.2 x hx
+    · simp only [h, Bool.false_eq_true, if_false]
+      exact ⟨rfl, by simp⟩
+
+/-! ### the merging loop keeps every word -/
+
+theorem sep_lower (c : Char) : sep (lowerAsciiChar c) = sep c := by
+  by_cases h : c.toNat < 128
+  · have : ∀ n ∈ List.range 128, sep (lowerAsciiChar (Char.ofNat n)) = sep (Char.ofNat n) := by decide +kernel
+    have := this c.toNat (by simpa using h)
+    rwa [Char.ofNat_toNat] at this
+  · have hu : isAsciiUpper c = false := by
+      cases hc : isAsciiUpper c with
+      | false => rfl
+      | true => have := (Props.C19.upper_iff c).mp hc; omega
+    simp [lowerAsciiChar, hu]
+
+theorem atomsAux_lower (s cur : Str) : atomsAux (lowerAscii s) cur = atomsAux s cur := by
+  induction s generalizing cur with
+  | nil => rfl
+  | cons c cs ih =>
+    simp only [lowerAscii, List.map_cons, atomsAux] at ih ⊢
+    have hs : (isSpace (lowerAsciiChar c) || decide (lowerAsciiChar c = ':')) = (isSpace c || decide (c = ':')) := sep_lower c
+    rw [hs, (Props.C19.case_facts c).1]
+    by_cases h : (isSpace c || decide (c = ':')) = true
+    · simp only [h, if_true]
+      by_cases he : cur.isEmpty = true
+      · simp only [he, if_true]; exact ih []
+      · simp only [he, Bool.false_eq_true, if_false]; rw [ih []]
+    · simp only [h, Bool.false_eq_true, if_false]
+      exact ih _
+
+theorem atoms_lower (s : Str) : atoms (lowerAscii s) = atoms s := atomsAux_lower s []
+
+theorem space_sep {c : Char} (h : isSpace c = true) : sep c = true := by simp [sep, h]
+
+theorem atoms_allsep_append (w a : Str) (h : ∀ c ∈ w, sep c = true) : atoms (w ++ a) = atoms a := by
+  induction w with
+  | nil => rfl
+  | cons c cs ih => rw [List.cons_append, atoms_cons_sep c _ (h c (by simp))]; exact ih (fun d hd => h d (by simp [hd]))
+
+theorem atoms_strip (s : Str) : atoms (strip s) = atoms s := by
+  obtain ⟨w1, hw1, hd1⟩ := lstrip_decomp s
+  obtain ⟨w2, hw2, hd2⟩ := rstrip_decomp (lstrip s)
+  conv => rhs; rw [hd1, hd2]
+  rw [atoms_allsep_append w1 _ (fun c hc => space_sep (hw1 c hc)), atoms_append_allsep _ w2 (fun c hc => space_sep (hw2 c hc))]
+  rfl
+
+theorem atoms_joinNl_mem (vs : List Str) (v : Str) (hv : v ∈ vs) : Sub (atoms v) (atoms (Model.Email.joinNl vs)) := by
+  induction vs with
+  | nil => cases hv
+  | cons x xs ih =>
+    cases xs with
+    | nil =>
+      simp only [List.mem_singleton] at hv
+      subst hv
+      exact Sub.refl _
+    | cons y ys =>
+      have e : Model.Email.joinNl (x :: y :: ys) = x ++ '\n' :: Model.Email.joinNl (y :: ys) := rfl
+      rw [e, atoms_sep x _ '\n' (by decide)]
+      rcases List.mem_cons.mp hv with rfl | hv
+      · exact Sub.left _ _
+      · exact Sub.trans (ih hv) (Sub.right _ _)
+
+theorem addNew_keeps (acc : List Str) (v x : Str) (h : x ∈ acc) : x ∈ addNew acc v := by
+  unfold addNew
+  split
+  · exact h
+  · exact List.mem_append.mpr (Or.inl h)
+
+theorem addNew_has (acc : List Str) (v : Str) : v ∈ addNew acc v := by
+  unfold addNew
+  by_cases h : acc.contains v = true
+  · simp only [h, if_true]; exact List.contains_iff_mem.mp h
+  · simp only [h, Bool.false_eq_true, if_false]; simp
+
+theorem distinct_has (vs : List Str) (x : Str) (hx : x ∈ vs) : x ∈ distinct vs := by
+  unfold distinct
+  have : ∀ (l acc : List Str), (x ∈ acc ∨ x ∈ l) → x ∈ l.foldl addNew acc := by
+    intro l
+    induction l with
+    | nil => intro acc h; rcases h with h | h; exact h; cases h
+    | cons y ys ih =>
+      intro acc h
+      simp only [List.foldl_cons]
+      apply ih
+      rcases h with h | h
+      · exact Or.inl (addNew_keeps acc y x h)
+      · rcases List.mem_cons.mp h with rfl | h
+        · exact Or.inl (addNew_has acc x)
+        · exact Or.inr h
+  exact this vs [] (Or.inr hx)
+
+theorem lookup_mem' {β} (l : List (Str × β)) (k : Str) (v : β) (h : l.lookup k = some v) : (k, v) ∈ l := by
+  induction l with
+  | nil => cases h
+  | cons a as ih =>
+    obtain ⟨a1, a2⟩ := a
+    by_cases e : k = a1
+    · subst e
+      simp only [List.lookup, beq_self_eq_true, Option.some.injEq] at h
+      subst h; simp
+    · have : (k == a1) = false := by simpa using e
+      simp only [List.lookup, this] at h
+      simp [ih h]
+
+theorem items_sub (items : List (Str × Str)) : Sub (hdrAtoms items) (dictAtoms (mergeItems items)) := by
+  intro x hx
+  simp only [hdrAtoms, List.mem_flatMap] at hx
+  obtain ⟨nv, hnv, hx⟩ := hx
+  have hment : mentioned (keyOf nv) items = true := by
+    simp only [mentioned, List.any_eq_true, decide_eq_true_eq]
+    exact ⟨nv, hnv, rfl⟩
+  have hlk := mergeItems_lookup items (keyOf nv)
+  rw [hment, if_pos rfl] at hlk
+  have hmem := lookup_mem' _ _ _ hlk
+  simp only [dictAtoms, List.mem_flatMap]
+  refine ⟨_, hmem, ?_⟩
+  simp only [List.mem_append] at hx ⊢
+  rcases hx with hx | hx
+  · left
+    have : atoms (keyOf nv) = atoms nv.1 := by unfold keyOf; rw [atoms_strip, atoms_lower]
+    rw [this]; exact hx
+  · right
+    have hv : atoms (valOf nv) = atoms nv.2 := by unfold valOf; exact atoms_strip _
+    rw [← hv] at hx
+    by_cases he : (valOf nv).isEmpty = true
+    · have : valOf nv = [] := List.isEmpty_iff.mp he
+      rw [this] at hx; simp [atoms_nil] at hx
+    · have hin : valOf nv ∈ valuesFor (keyOf nv) items := by
+        unfold valuesFor
+        simp only [List.mem_filter, List.mem_map, decide_eq_true_eq, Bool.not_eq_true']
+        exact ⟨⟨nv, ⟨hnv, rfl⟩, rfl⟩, by simpa using he⟩
+      exact atoms_joinNl_mem _ _ (distinct_has _ _ hin) x hx
+
+/-! ### one paragraph -/
+
+theorem phl_pb_mem (n : Nat) (ls : List Str) : ∀ (idx : Nat) (s : HSt) (l : Str),
+    (parseHeaderLines n idx s ls).acc.pushedBack = some l → s.acc.pushedBack = some l ∨ l ∈ ls := by
+  induction ls with
+  | nil =>
+    intro idx s l h
+    simp only [parseHeaderLines, (flush_acc_eq s).2] at h
+    exact Or.inl h
+  | cons x rest ih =>
+    intro idx s l h
+    unfold parseHeaderLines at h
+    have step : ∀ s', (parseHeaderLines n (idx + 1) s' rest).acc.pushedBack = some l → s'.acc.pushedBack = s.acc.pushedBack →
+        s.acc.pushedBack = some l ∨ l ∈ x :: rest := by
+      intro s' h' hs'
+      rcases ih (idx + 1) s' l h' with h1 | h1
+      · exact Or.inl (by rw [← hs']; exact h1)
+      · exact Or.inr (by simp [h1])
+    split at h
+    · split at h
+      · exact step _ h rfl
+      · exact step _ h rfl
+    · simp only at h
+      split at h
+      · split at h
+        · exact step _ h (by simp [(flush_acc_eq s).2])
+        · split at h
+          · simp only [Option.some.injEq] at h
+            exact Or.inr (by simp [h])
+          · exact step _ h (by simp [(flush_acc_eq s).2])
+      · split at h
+        · exact step _ h (by simp [(flush_acc_eq s).2])
+        · exact step _ h (by simp [(flush_acc_eq s).2])
+
+theorem TE_pre (a b : List Str) (h : TE (a ++ b)) : TE a := by
+  induction a with
+  | nil => trivial
+  | cons x xs ih =>
+    cases xs with
+    | nil => trivial
+    | cons y ys => exact ⟨h.1, ih h.2⟩
+
+theorem TE_suffix (a b : List Str) (h : TE (a ++ b)) : TE b := by
+  induction a with
+  | nil => exact h
+  | cons x xs ih => exact ih (TE_tail _ _ h)
+
+theorem unknown_item_sub (v : Str) (rest : List (Str × Str)) :
+    Sub (atoms v) (hdrAtoms ((if v.isEmpty then [] else [(unknownKey, v)]) ++ rest)) := by
+  by_cases h : v.isEmpty = true
+  · have : v = [] := List.isEmpty_iff.mp h
+    subst this; exact Sub.nil _
+  · simp only [h, Bool.false_eq_true, if_false]
+    intro x hx
+    simp only [hdrAtoms, List.flatMap_append, List.flatMap_cons, List.flatMap_nil, List.mem_append]
+    exact Or.inl (Or.inl (Or.inr hx))
+
+def sepDefect (rest : List Str) : Bool :=
+  match rest with
+  | [] => false
+  | l :: _ => !startsWithNl l
+
+def bodyOf (rest : List Str) : List Str :=
+  match rest with
+  | [] => []
+  | l :: ls => if startsWithNl l then ls else l :: ls
+
+def pbList (st : HSt) : List Str := match st.acc.pushedBack with | some l => [l] | none => []
+
+def initSt : HSt := ⟨none, ⟨[], none, false, none⟩⟩
+
+theorem parseHeaders_eq (t : Str) :
+    parseHeaders t =
+      { headers := (parseHeaderLines (takeHeaderLines (splitKeepEnds t)).1.length 0 initSt (takeHeaderLines (splitKeepEnds t)).1).acc.headers,
+        unixfrom := (parseHeaderLines (takeHeaderLines (splitKeepEnds t)).1.length 0 initSt (takeHeaderLines (splitKeepEnds t)).1).acc.unixfrom,
+        defects := (parseHeaderLines (takeHeaderLines (splitKeepEnds t)).1.length 0 initSt (takeHeaderLines (splitKeepEnds t)).1).acc.defects ||
+          sepDefect (takeHeaderLines (splitKeepEnds t)).2,
+        payload := (pbList (parseHeaderLines (takeHeaderLines (splitKeepEnds t)).1.length 0 initSt (takeHeaderLines (splitKeepEnds t)).1) ++
+          bodyOf (takeHeaderLines (splitKeepEnds t)).2).flatten } := by
+  unfold parseHeaders
+  simp only
+  generalize (takeHeaderLines (splitKeepEnds t)).1 = hdr
+  generalize (takeHeaderLines (splitKeepEnds t)).2 = rest
+  cases rest with
+  | nil => rfl
+  | cons l ls =>
+    by_cases h : startsWithNl l = true
+    · simp only [sepDefect, bodyOf, pbList, initSt, h, if_true, Bool.not_true, Bool.false_eq_true]
+      rfl
+    · simp only [sepDefect, bodyOf, pbList, initSt, h, if_false, Bool.not_false, Bool.false_eq_true]
+      rfl
+
+/-- **every word of the text appears in a key or a value of `get_paragraph_data(text)`** -/
+theorem paragraph_words (t : Str) : Sub (atoms t) (dictAtoms (getParagraphData t)) := by
+  have htriv : Sub (atoms t) (dictAtoms [(unknownKey, t)]) := by
+    intro x hx
+    simp [dictAtoms, hx]
+  unfold getParagraphData
+  by_cases he : t.isEmpty = true
+  · rw [if_pos he]; exact htriv
+  · rw [if_neg he]
+    simp only
+    by_cases hd : ((parseHeaders t).headers.isEmpty || (parseHeaders t).defects) = true
+    · rw [if_pos hd]; exact htriv
+    · rw [if_neg hd]
+      refine Sub.trans ?_ (items_sub _)
+      -- the lines of the text
+      have hflat := Props.C06.splitKeepEnds_flatten t
+      have hTE := splitKeepEnds_TE t
+      obtain ⟨hsplit, hhdr⟩ := takeHeaderLines_split (splitKeepEnds t)
+      rw [parseHeaders_eq] at hd ⊢
+      generalize hH : (takeHeaderLines (splitKeepEnds t)).1 = hdr at hsplit hhdr hd ⊢
+      generalize hR : (takeHeaderLines (splitKeepEnds t)).2 = rest at hsplit hd ⊢
+      generalize hst : parseHeaderLines hdr.length 0 initSt hdr = st at hd ⊢
+      simp only at hd ⊢
+      have hatoms : atoms t = hdr.flatMap atoms ++ rest.flatMap atoms := by
+        conv => lhs; rw [← hflat]
+        rw [atoms_flatten _ hTE, hsplit, List.flatMap_append]
+      have hnd : st.acc.defects = false ∧ sepDefect rest = false := by
+        simp only [Bool.or_eq_true, not_or, Bool.not_eq_true, Bool.or_eq_false_iff] at hd
+        exact hd.2
+      rw [hsplit] at hTE
+      obtain ⟨hphl, hlast⟩ := phl_atoms hdr.length hdr 0 initSt rfl (by simp) hhdr
+        (by simp only [initSt, openLines, List.nil_append]; exact TE_pre hdr rest hTE)
+        (by intro fc hfc; cases hfc) (fun _ => rfl) rfl (by rw [hst]; exact hnd.1)
+      rw [hst] at hphl hlast
+      -- the body: the rest without the separator line, which has no words
+      have hbody : rest.flatMap atoms = (bodyOf rest).flatMap atoms := by
+        cases rest with
+        | nil => rfl
+        | cons l ls =>
+          have hs : startsWithNl l = true := by
+            have := hnd.2
+            simpa [sepDefect] using this
+          have hl : l ∈ splitKeepEnds t := by rw [hsplit]; simp
+          simp only [bodyOf, hs, if_true, List.flatMap_cons, sep_line_atoms t l hl hs, List.nil_append]
+      -- the payload: the pushed-back line and the body
+      have hTEbody : TE (pbList st ++ bodyOf rest) := by
+        have hTb : TE (bodyOf rest) := by
+          cases rest with
+          | nil => trivial
+          | cons l ls =>
+            simp only [bodyOf]
+            split
+            · exact TE_tail _ _ (TE_suffix hdr _ hTE)
+            · exact TE_suffix hdr _ hTE
+        unfold pbList
+        cases hpb : st.acc.pushedBack with
+        | none => simpa using hTb
+        | some pl =>
+          simp only [List.singleton_append]
+          cases hb : bodyOf rest with
+          | nil => trivial
+          | cons b bs =>
+            rw [hb] at hTb
+            refine ⟨?_, hTb⟩
+            -- the pushed-back line is a header line, and a line follows the header block
+            have hmem : pl ∈ hdr := by
+              rcases phl_pb_mem hdr.length hdr 0 initSt pl (by rw [hst]; exact hpb) with h | h
+              · simp [initSt] at h
+              · exact h
+            have hrne : rest ≠ [] := by intro e; rw [e] at hb; simp [bodyOf] at hb
+            exact (TE_prefix hdr rest hTE hrne).2 pl hmem
+      have hpay : atoms (pbList st ++ bodyOf rest).flatten = optAtoms st.acc.pushedBack ++ (bodyOf rest).flatMap atoms := by
+        rw [atoms_flatten _ hTEbody, List.flatMap_append]
+        unfold pbList optAtoms
+        cases st.acc.pushedBack <;> simp
+      -- every word of the text is a word of an item
+      rw [hatoms, hbody]
+      intro x hx
+      have hx' : x ∈ optAtoms st.acc.unixfrom ∨ x ∈ hdrAtoms st.acc.headers ∨ x ∈ atoms (pbList st ++ bodyOf rest).flatten := by
+        rw [hpay]
+        rcases List.mem_append.mp hx with h | h
+        · have := (accAtoms_mem st x).mp (hphl x (by simp [accAtoms, initSt, optAtoms, hdrAtoms, openAtoms, h]))
+          rcases this with h1 | h1 | h1 | h1
+          · exact Or.inl h1
+          · exact Or.inr (Or.inl h1)
+          · exact Or.inr (Or.inr (List.mem_append.mpr (Or.inl h1)))
+          · -- no header is left open
+            rw [hlast] at h1; simp [openAtoms] at h1
+        · exact Or.inr (Or.inr (List.mem_append.mpr (Or.inr h)))
+      -- the items
+      have hitems : ∀ (uf : Option Str) (hs : List (Str × Str)) (pay : Str),
+          (x ∈ optAtoms uf ∨ x ∈ hdrAtoms hs ∨ x ∈ atoms pay) →
+          x ∈ hdrAtoms ((match uf with | some u => if u.isEmpty then [] else [(unknownKey, u)] | none => []) ++
+            (hs ++ (if pay.isEmpty then [] else [(unknownKey, pay)]))) := by
+        intro uf hs pay h
+        rcases h with h | h | h
+        · cases uf with
+          | none => simp [optAtoms] at h
+          | some u => exact unknown_item_sub u _ x h
+        · simp only [hdrAtoms, List.flatMap_append, List.mem_append]
+          exact Or.inr (Or.inl h)
+        · have := unknown_item_sub pay [] x h
+          simp only [hdrAtoms, List.flatMap_append, List.mem_append, List.append_nil] at this ⊢
+          exact Or.inr (Or.inr this)
+      exact hitems _ _ _ hx'
 
 end Props.C08W
